@@ -396,14 +396,15 @@ def _mentions(e, prefix):
 
 # theories whose facts are only ever needed by goals that mention them: leaving
 # them out of the other queries keeps those small (dropping hypotheses is sound)
-LOCAL_THEORIES = ("colsum!",)
 
 
 def solver_for(engine, pc, goal=None):
     s = z3.Solver()
     s.set("timeout", Z3_TIMEOUT_MS)
     s.set("rlimit", Z3_RLIMIT)
-    hide = [pre for pre in LOCAL_THEORIES if goal is not None and pre.rstrip("!") + "!SUM" in engine.specfns and not _mentions(goal, pre)]
+    # (opt-in per contract: where the theory's facts are also needed by goals that do not mention it - e.g. a key
+    #  known to be present because its count is positive - nothing is hidden)
+    hide = [pre for pre in getattr(engine.contract, "local_theories", ()) if goal is not None and not _mentions(goal, pre)]
     for a in engine.axioms:
         if not any(_mentions(a, pre) for pre in hide):
             s.add(a)
@@ -713,7 +714,7 @@ def _run(eng, contract, fn, res):
     st.old = (dict(st.vars), dict(st.heap))
     outs = eng.exec_block(st, fn.body)
     npaths = 0
-    canary_state = None
+    canary_states = []
     for s2, oc in outs:
         npaths += 1
         if oc == "normal":
@@ -725,7 +726,7 @@ def _run(eng, contract, fn, res):
                 raw = eng.deref(s2, val) if not isinstance(val, PyConst) else val
                 if isinstance(raw, (V, PyConst)) and not (isinstance(raw, V) and isinstance(raw.t, Ty.Opt)):
                     val = eng.coerce(raw, contract.returns)
-            canary_state = canary_state or s2.clone()
+            canary_states.append(s2.clone())
             for j, post in enumerate(list(contract.ensures) + list(contract.ensures_t1)):
                 g = eng.eval_spec(s2, post, {"result": val})
                 eng.oblige(s2, g, f"postcondition {j}: {post}", "post", None)
@@ -795,10 +796,15 @@ def _run(eng, contract, fn, res):
     # proofs of the library lemmas this run relied on
     res.obligations.extend(getattr(eng, "library_lemmas", []))
     # canary: 'False' after a returning path must NOT be provable
-    if contract.canary and canary_state is not None and (shard is None or shard[0] == 0):
-        cob = Obligation("canary", "canary", list(canary_state.pc), z3.BoolVal(False))
-        status, backend, dt, _ = discharge(eng, cob, want_model=False, quick_ms=1500)
-        res.canary = status != "discharged"
+    if contract.canary and canary_states and (shard is None or shard[0] == 0):
+        # some returning path must be consistent (an infeasible path that was not pruned proves nothing)
+        res.canary = False
+        for cs_ in canary_states[:8]:
+            cob = Obligation("canary", "canary", list(cs_.pc), z3.BoolVal(False))
+            status, backend, dt, _ = discharge(eng, cob, want_model=False, quick_ms=1500)
+            if status != "discharged":
+                res.canary = True
+                break
     res.fired_calls = getattr(eng, "fired_calls", [])
 
 
